@@ -100,6 +100,31 @@ impl Net {
     }
 }
 
+
+/// Is there a UDP socket with local address `local` connected to `remote` (this netns)? Read from
+/// /proc/net/udp. This identifies sozu's upstream socket of one flow exactly (our backend address is
+/// unique), whereas "is the port bound" also sees any other socket the kernel gave the same port since.
+fn udp_socket_exists(local: SocketAddr, remote: SocketAddr) -> Option<bool> {
+    let txt = std::fs::read_to_string("/proc/net/udp").ok()?;
+    let enc = |a: &SocketAddr| -> Option<String> {
+        match a {
+            SocketAddr::V4(v) => {
+                let o = v.ip().octets();
+                Some(format!("{:02X}{:02X}{:02X}{:02X}:{:04X}", o[3], o[2], o[1], o[0], v.port()))
+            }
+            _ => None,
+        }
+    };
+    let (l, r) = (enc(&local)?, enc(&remote)?);
+    for line in txt.lines().skip(1) {
+        let w: Vec<&str> = line.split_whitespace().collect();
+        if w.len() > 2 && w[1] == l && w[2] == r {
+            return Some(true);
+        }
+    }
+    Some(false)
+}
+
 // ------------------------------------------------------------ reference ---
 
 fn pp2(client: &SocketAddr, backend: &SocketAddr) -> Vec<u8> {
@@ -293,20 +318,21 @@ impl World {
         // idle teardown, observed directly: more than LATE ms past its idle deadline the flow's upstream
         // socket must be closed, i.e. its port free again (unless the kernel gave it to a newer flow)
         for (inc, up, client) in gone {
-            if self.flows.iter().any(|f| !f.closed && f.up.port() == up.port()) {
+            if self.flows.iter().any(|f| !f.closed && f.up == up && f.bidx == self.flows[inc].bidx) {
                 continue;
             }
-            match UdpSocket::bind(up) {
-                Ok(_) => {
+            let baddr = self.backend_sock(self.flows[inc].bidx).addr;
+            match udp_socket_exists(up, baddr) {
+                Some(false) => {
                     self.c.tag("idle-flow-socket-verified-closed");
                     self.flows[inc].verified_closed = true;
                 }
-                Err(e) if e.kind() == std::io::ErrorKind::AddrInUse => {
-                    self.c.fail("idle-flow-not-torn-down", format!("flow {inc} of {client}: upstream socket {up} still open more than {LATE} ms after its idle deadline"));
+                Some(true) => {
+                    self.c.fail("idle-flow-not-torn-down", format!("flow {inc} of {client}: upstream socket {up} -> {baddr} still open more than {LATE} ms after its idle deadline"));
                     self.c.tainted = true;
                     self.c.trace_ok = false;
                 }
-                Err(_) => {}
+                None => {}
             }
         }
         (live, maybe)
@@ -319,18 +345,28 @@ impl World {
         }
         std::thread::sleep(Duration::from_millis(3));
         for (inc, up) in std::mem::take(&mut self.to_probe) {
-            if self.flows.iter().any(|f| !f.closed && f.up.port() == up.port()) {
-                continue; // the kernel handed the port to a newer flow
+            let bidx = self.flows[inc].bidx;
+            if self.flows.iter().any(|f| !f.closed && f.up == up && f.bidx == bidx) {
+                continue; // the kernel handed the port to a newer flow towards the same backend
             }
-            match UdpSocket::bind(up) {
-                Ok(_) => {
+            let baddr = self.backend_sock(bidx).addr;
+            // sozu closes the flow right after forwarding the datagram we have just seen; give its thread
+            // up to 400 ms to get there before judging
+            let mut seen = udp_socket_exists(up, baddr);
+            let until = Instant::now() + Duration::from_millis(400);
+            while seen == Some(true) && Instant::now() < until {
+                std::thread::sleep(Duration::from_millis(5));
+                seen = udp_socket_exists(up, baddr);
+            }
+            match seen {
+                Some(false) => {
                     self.c.tag("closed-flow-socket-verified-closed");
                     self.flows[inc].verified_closed = true;
                 }
-                Err(e) if e.kind() == std::io::ErrorKind::AddrInUse => {
-                    self.c.fail("closed-flow-upstream-socket-still-open", format!("flow {inc} was torn down but its upstream socket {up} is still bound"));
+                Some(true) => {
+                    self.c.fail("closed-flow-upstream-socket-still-open", format!("flow {inc} was torn down but its upstream socket {up} -> {baddr} still exists"));
                 }
-                Err(_) => {}
+                None => {}
             }
         }
     }
@@ -840,8 +876,9 @@ fn run_case(seed: u64, case: u64, thorough: bool, driver: &str) -> (Case, Value)
     }
     let nclients = socks.len();
     for _ in 0..nb + 1 {
-        // one spare backend to be added mid-run
-        match bind(Ipv4Addr::new(127, 0, 0, 1)) {
+        // one spare backend to be added mid-run; per-case loopback address: no other case's (or process's)
+        // socket shares an address with ours, whatever ports the kernel re-uses
+        match bind(Ipv4Addr::new(127, 1 + (std::process::id() % 120) as u8, (case % 250) as u8 + 1, 1)) {
             Ok(s) => socks.push(s),
             Err(e) => {
                 c.fail("harness-setup", format!("bind backend: {e}"));
